@@ -394,14 +394,17 @@ func nativeReplay(results []*symx.CaseResult) (*replayReport, error) {
 		// process: a site confirmed for one witness counts for the others
 		siteConfirmed := map[string]bool{}
 		for _, r := range rs {
-			if r.Outcome == "race" {
-				siteConfirmed[raceRefs[r.Case][r.Witness].viol.ID] = true
+			if r.Outcome == "race" || r.Outcome == "panic" || strings.HasPrefix(r.Outcome, "assert:") {
+				rf := raceRefs[r.Case][r.Witness]
+				siteConfirmed[rf.viol.ID] = true
+				siteConfirmed[rf.res.Spec.Harness+"/"+rf.viol.Case] = true
 			}
 		}
 		for _, r := range rs {
 			rf := raceRefs[r.Case][r.Witness]
 			w := raceCases[r.Case].Witnesses[r.Witness]
-			if r.Outcome == "race" || (r.Outcome == "ok" && siteConfirmed[rf.viol.ID]) {
+			if r.Outcome == "race" || r.Outcome == "panic" || strings.HasPrefix(r.Outcome, "assert:") ||
+				(r.Outcome == "ok" && (siteConfirmed[rf.viol.ID] || siteConfirmed[rf.res.Spec.Harness+"/"+rf.viol.Case])) {
 				rep.confirmed = append(rep.confirmed, confirmedViolation{Spec: rf.res.Spec, V: rf.viol, Native: "race detector report", Detail: r.Detail})
 			} else {
 				rep.unconfirmed = append(rep.unconfirmed, fmt.Sprintf("%s %s/%s: engine saw a write during a query, the race detector run says %s (vector %v)", rf.res.Spec, rf.viol.Case, rf.viol.ID, r.Outcome, w.Vector))
